@@ -126,7 +126,8 @@ Lemma link_pick_element p i h : (0 < i)%N -> nth_error (BasePartition_block p) (
 Proof.
   intros Hi Hh Hs. unfold M_BasePartition_pick_element, BasePartition_pick_element, convbp. cbn [bp_seg].
   destruct (N.ltb_spec 0 i) as [C|C]; [|exfalso; lia]. rewrite Hh. cbn [bind].
-  destruct (nth_error (BasePartition_segment p) (BlockHeader_start h)) as [x|] eqn:E.
+  destruct h as [s0 e0]. cbn [BlockHeader_start BlockHeader_end] in *.      (* field access or a struct pattern *)
+  destruct (nth_error (BasePartition_segment p) s0) as [x|] eqn:E.
   - cbn [option_map]. f_equal. symmetry. apply nth_error_nth. rewrite nth_error_map, E. reflexivity.
   - apply nth_error_None in E. lia.
 Qed.
